@@ -11,7 +11,7 @@ from pathlib import Path
 
 from . import repo_common as rc
 from . import c15
-from .. import harness, repodrv
+from .. import harness, repodrv, tlc
 
 LEVEL = 'model_checking'
 CLAUSES = c15.CLAUSES + ['P:Safety', 'P:CleanExact', 'P:CommitComplete', 'P:SnapshotFaithful']
@@ -95,6 +95,16 @@ def variant(run, g, seed, mode, quick):
 def main(run):
     quick = run.tier == 'quick'
     rc.design(run, ['mixed'] if quick else ['same', 'shared', 'mixed'])
+    # design model of the cache itself: entry states, shared directories, stale entries; mutants must fail
+    base = open(os.path.join(tlc.SPEC_DIR, 'MC_Cache.cfg')).read()
+    res = tlc.check_design('Cache', 'MC_Cache.cfg')
+    run.add(states=res.distinct, transitions=res.generated)
+    caught = []
+    for m in ('TrustCache', 'ListFromCache', 'SkipTagWhenCached'):
+        tlc.check_design('Cache', 'mut.cfg', cfg_text=base.replace('Mutant = "none"', 'Mutant = "%s"' % m), expect_violation='CacheTransparent')
+        caught.append(m)
+    tlc.check_design('Cache', 'benign.cfg', cfg_text=base.replace('Mutant = "none"', 'Mutant = "NoStore"'))     # never caching is transparent too
+    run.add(cache_model_mutants_caught=caught)
     traces = []
     graphs = ['same', 'shared', 'mixed', 'plain'] if quick else list(rc.ALL_GRAPHS)
     for g in graphs:
